@@ -123,7 +123,7 @@ func (s *vfServerStream) Send(m *adminservice.StreamWorkflowReplicationMessagesR
 	return nil
 }
 func (s *vfServerStream) deliver(it vfItem) { s.delivered++; s.recvQ <- it }
-func (s *vfServerStream) atHome() bool     { return s.recvCalls == s.delivered+1 }
+func (s *vfServerStream) atHome() bool      { return s.recvCalls == s.delivered+1 }
 
 // vfClientStream is the proxy-side view of a stream the proxy opened towards a Temporal cluster.
 type vfClientStream struct {
@@ -149,7 +149,7 @@ func (c *vfClientStream) breakNow() {
 	}
 }
 
-func (c *vfClientStream) Context() context.Context { return c.ctx }
+func (c *vfClientStream) Context() context.Context     { return c.ctx }
 func (c *vfClientStream) Header() (metadata.MD, error) { return metadata.MD{}, nil }
 func (c *vfClientStream) Trailer() metadata.MD         { return metadata.MD{} }
 func (c *vfClientStream) Recv() (*adminservice.StreamWorkflowReplicationMessagesResponse, error) {
@@ -193,7 +193,7 @@ func (c *vfClientStream) CloseSend() error {
 	return nil
 }
 func (c *vfClientStream) deliver(it vfItem) { c.delivered++; c.recvQ <- it }
-func (c *vfClientStream) atHome() bool     { return c.recvCalls == c.delivered+1 }
+func (c *vfClientStream) atHome() bool      { return c.recvCalls == c.delivered+1 }
 func (c *vfClientStream) alive() bool {
 	return !c.broken && !c.ended && !c.closeSent && c.ctx.Err() == nil
 }
